@@ -8,6 +8,9 @@
 //   * a skipped attribute without a transform (plain integer / unquantized float) is byte-identical.
 //   h_c10 <tier> <seed> <out>
 #include "geo_gen.h"
+#include <dirent.h>
+#include <fstream>
+#include <iterator>
 #include "draco/attributes/attribute_octahedron_transform.h"
 #include "draco/attributes/attribute_quantization_transform.h"
 
@@ -29,7 +32,8 @@ static void check_skip(Out &o, const char *data, size_t size, bool mesh, const s
   for (int i = 0; i < a->num_attributes(); i++) {
     const PointAttribute *pa = a->attribute(i); const PointAttribute *pb = b->attribute(i);
     const std::string an = " (attribute " + S(i) + " type " + S((int)pa->attribute_type()) + ")";
-    if (pa->unique_id() != pb->unique_id() || b->GetAttributeByUniqueId(pa->unique_id()) != pb) { o.fail("C10 attribute not under its original unique id under skip" + an + ": " + gt); return; }
+    // (old streams may give several attributes the same unique id: the id must resolve to the same attribute index in both decodes)
+    if (pa->unique_id() != pb->unique_id() || a->GetAttributeIdByUniqueId(pa->unique_id()) != b->GetAttributeIdByUniqueId(pa->unique_id())) { o.fail("C10 attribute not under its original unique id under skip" + an + ": " + gt); return; }
     if (pa->attribute_type() != pb->attribute_type()) { o.fail("C10 attribute changed its type under skip" + an + ": " + gt); return; }
     bool skipped = false; for (int t : skip) if (t == (int)pa->attribute_type()) skipped = true;
     { bool badmap = !pb->is_mapping_identity() && pb->indices_map_size() != b->num_points();   // structural validity of what the skipping decode returned (C03)
@@ -109,6 +113,16 @@ int main(int argc, char **argv) {
         check_skip(o, b.data(), b.size(), false, sk, "pc method=" + S(method) + " speed=" + S(speed) + " skip={" + skn(sk) + "} pc#" + S(i) + "." + S(k) + " seed=" + argv[2]); }
     }
   }
+  // every stream of the frozen corpus (legacy bitstream versions 1.1 .. 2.2 included: the decoders keep separate branches for them)
+  { const char *dir = getenv("C10_CORPUS"); std::string dd = dir ? dir : "/verif/corpus/C05"; std::vector<std::string> names;
+    if (DIR *dp = opendir(dd.c_str())) { while (dirent *e = readdir(dp)) { std::string n = e->d_name; if (n.size() > 4 && n.substr(n.size() - 4) == ".drc") names.push_back(n); } closedir(dp); }
+    std::sort(names.begin(), names.end());
+    for (auto &n : names) { std::ifstream f(dd + "/" + n, std::ios::binary); std::vector<char> b((std::istreambuf_iterator<char>(f)), std::istreambuf_iterator<char>());
+      if (b.size() < 11 || b.size() > 400000) continue; const bool mesh = b[7] == 1; const bool legacy = !(b[5] == 2 && b[6] >= 2);
+      if (!legacy && !thorough && (std::hash<std::string>()(n) % 4) != 0) continue;   // quick: all legacy streams, a quarter of the current-version ones
+      streams++; paths[legacy ? "corpus-legacy" : "corpus-current"]++;
+      std::vector<std::vector<int>> sks = {{GeometryAttribute::POSITION}, {GeometryAttribute::NORMAL}, {GeometryAttribute::POSITION, GeometryAttribute::NORMAL, GeometryAttribute::TEX_COORD, GeometryAttribute::GENERIC, GeometryAttribute::COLOR}, gen_skip(r)};
+      for (auto &sk : sks) { decodes++; check_skip(o, b.data(), b.size(), mesh, sk, std::string("corpus ") + n + " v" + S((int)b[5]) + "." + S((int)b[6]) + " skip={" + skn(sk) + "}"); } } }
   std::string ps; for (auto &kv : paths) ps += " " + kv.first + "=" + S(kv.second);
   o.note("STATS streams=" + S(streams) + " skip_decodes=" + S(decodes) + " encode_failures=" + S(enc_failed) + " attributes: skipped+requantized=" + S(n_skipped_q) + " skipped+octahedron=" + S(n_skipped_o) +
          " skipped_untransformed=" + S(n_skipped_plain) + " unskipped_compared=" + S(n_unskipped) + " paths:" + ps);
